@@ -181,14 +181,19 @@ class SysRun:
               me.emit("put", kind, args[0][0] if isinstance(args[0][0], int) else 0, args[0][1], args[0][2], th)
             elif op in ("get", "get_nowait") and isinstance(r, list):
               me.emit("get", kind, r[0] if isinstance(r[0], int) else 0, r[1], r[2], th)
-          elif obj.startswith("dq_") and op in ("append", "appendleft"):
+          if obj.startswith("dq_") and op in ("append", "appendleft", "popleft", "pop", "rotate", "clear"):
+            # queue-level record for SystemTrace.tla: items as strings ("e<id>" numbered by the harness, "s:<SIGNAL>" otherwise)
+            name = obj[3:]
+            it = args[0] if op in ("append", "appendleft") and args else (r if op in ("popleft", "pop") else "")
+            me.emit("qop", name, op, item_str(it), th, [item_str(shims.ident(x)) for x in me.aos[name].locking_deque.deque.raw()])
+          if obj.startswith("dq_") and op in ("append", "appendleft"):
             a = args[0] if args else ""
             name = obj[3:]
             dq = [shims.ident(x) for x in me.aos[name].locking_deque.deque.raw()]
             src = int(th[2:]) if th.startswith("tm") and th[2:].isdigit() else 0
             me.emit("qapp", name, a if isinstance(a, int) else 0, a if isinstance(a, str) else "", op, th,
                     [x if isinstance(x, int) else 0 for x in dq], src)
-        sched.observers.append(observe)
+        sched.sync_observers.append(observe)     # records appear at the moment the operation took effect
         sched.on_stall = lambda name, d: me.emit("stall", name, d)
         for dname, ops in sorted(cfg["drivers"].items()):
           sched.spawn(dname, self.driver, dname, ops)
@@ -213,6 +218,16 @@ class SysRun:
         if left:
           res["leaked_threads"] = left
     return res
+
+
+def item_str(x):
+  if isinstance(x, bool):
+    return "s:?"
+  if isinstance(x, int):
+    return "e%d" % x
+  if isinstance(x, str):
+    return "s:" + x
+  return "s:?"
 
 
 def run_one(cfg, policy, max_steps=4000):
